@@ -242,7 +242,7 @@ def hunts(quick, focus, timeout):
         n_gp = (160 if len(opts) == 1 else 96) if quick else (600 if len(opts) == 1 else 240)
         for i in range(n_gp):
             c = {'objective': OBJECTIVES[i % len(OBJECTIVES)], 'ret': ['pyfloat', 'npscalar'][i % 2], 'box': ['sym10', 'asym'][i % 2],
-                 'agents': [5, 20, 7][i % 3], 'n_variables': [1, 2, 5][(i // 2) % 3], 'n_dimensions': 1, 'n_iterations': [3, 10][(i // 3) % 2],
+                 'agents': [5, 20, 7, 12, 1, 9][(i // 3) % 6], 'n_variables': [1, 2, 5][(i // 2) % 3], 'n_dimensions': 1, 'n_iterations': [3, 10][(i // 3) % 2],
                  'draws': 'seeded', 'hp': ['default', 'hi', 'rnd'][i % 3], 'store_best_only': False, 'hook': 'observe',
                  'functions': ['all', 'arith', 'abs'][i % 3], 'depth': [(1, 3), (2, 5)][(i // 2) % 2], 'n_terminals': [1, 3][(i // 4) % 2]}
             cfg = make('GP', 'tree', c, 8700 + i, timeout)
